@@ -20,6 +20,7 @@ from .sym import S, is_sym
 
 MAX_PATHS = 4000
 MAX_DEPTH = 80
+SELF_RECURSION = 40
 MAX_LOOP = 200000
 
 
@@ -333,6 +334,7 @@ class Interp:
         self.effects = []
         self.cells = {}
         self.depth = 0
+        self.qual_stack = []
         self.mod_env = {}             # module name -> Env   (reset per path)
         self.mod_loading = set()
         self.builtin_types = {n: BuiltinType(n, t) for n, t in BUILTIN_TYPES.items()}
@@ -397,6 +399,7 @@ class Interp:
                 self.mod_env.pop(name, None)
         self.mod_loading = set()
         self.depth = 0
+        self.qual_stack = []
         self.steps = 0
         self.path_t0 = _time.time()
 
@@ -2147,8 +2150,15 @@ class Interp:
             if r is not NotImplemented:
                 return r
         self.depth += 1
+        self.qual_stack.append(qual)
         if self.depth > MAX_DEPTH:
             self.depth -= 1
+            self.qual_stack.pop()
+            # one function making up half of a full call stack is runaway recursion in the
+            # program (Python raises RecursionError); anything else is the analysis running out of depth
+            top = max(set(self.qual_stack), key=self.qual_stack.count)
+            if top is not None and self.qual_stack.count(top) >= SELF_RECURSION:
+                raise Raised(ExcVal("RecursionError", args=(f"maximum recursion depth exceeded in {top}",)))
             raise Unsupported("call depth")
         try:
             env = Env(fn.env)
@@ -2181,6 +2191,7 @@ class Interp:
             return None
         finally:
             self.depth -= 1
+            self.qual_stack.pop()
 
     def bind_args(self, fn, env, args, kwargs):
         a = fn.node.args
